@@ -466,3 +466,10 @@ Theorem s2rect_expanded_keeps_everything_H : H_S1EXPAND -> forall r mg lat x,
   mem_s2rect r lat x -> mem_s2rect (s2_Rect_expanded r mg) lat x.
 Proof. exact s2rect_expanded_sound_under_H. Qed.
 Print Assumptions s2rect_expanded_keeps_everything_H.
+
+(** FINDING: "all results are valid values" is false of Cap.Union as it is (NaN centre for two
+    valid caps with nearly antipodal centres and a subnormal coordinate). *)
+Theorem cap_union_result_valid_refuted : exists a b,
+  s2_Cap_IsValid a = true /\ s2_Cap_IsValid b = true /\ s2_Cap_IsValid (s2_Cap_Union a b) = false.
+Proof. exact cap_union_valid_refuted. Qed.
+Print Assumptions cap_union_result_valid_refuted.
